@@ -3,7 +3,9 @@
   Call nesting: `pushFrame` refuses beyond `callDepthLimit`, and the ghost field `maxDepth`
   (largest number of frames ever open) shows that no evaluation — of any shape of recursion,
   direct, mutual or through match bodies — ever has more than `callDepthLimit + 1` frames open.
-  Array fill and printf width: the limits are decided by the value-level functions.
+  Array fill: the limit is decided by the value-level function `setMember`.  The printf width
+  limit is `C18.width_limit` / `C18.width_ok_below`; the JSON decoder's nesting limit has no
+  theorem in this file.
 -/
 import Jqawk.Lemmas.Invariant
 
@@ -22,6 +24,13 @@ theorem pushFrame_accepts (name : Bytes) (s : St) (h : s.frames.length ≤ callD
   refine ⟨{ s with frames := ⟨name, []⟩ :: s.frames,
                    maxDepth := max s.maxDepth (s.frames.length + 1) }, ?_, rfl⟩
   simp [pushFrame, this]
+
+/-- non-vacuity of `pushFrame_refuses` / `pushFrame_accepts`: a state with 4097 open frames, and
+    the initial state -/
+example : ({ (default : St) with frames := List.replicate 4097 ⟨[], []⟩ }).frames.length > callDepthLimit
+    ∧ (default : St).frames.length ≤ callDepthLimit := by
+  refine ⟨?_, by decide⟩
+  simp only [List.length_replicate]; decide
 
 variable (prog : Program)
 
@@ -60,6 +69,13 @@ theorem depth_bounded_expr (n : Nat) (e : Expr) (s s' : St) (hs : s.maxDepth ≤
   have := hk.depth
   omega
 
+/-- non-vacuity of `depth_bounded_stmt` / `depth_bounded_expr` (a small instance only: an empty
+    block and a literal end normally from the initial state; an instance that actually reaches
+    the limit needs a 4096-deep evaluation in the kernel) -/
+example : (match evalStmt Program.empty 3 (.block Token.zero []) default with
+      | .ok _ t => some t | .err _ t => some t | .oof => none).isSome = true ∧
+    (default : St).maxDepth ≤ callDepthLimit + 1 := by decide +kernel
+
 /-- the limit is the documented "few thousand" -/
 theorem callDepthLimit_value : callDepthLimit = 4096 := rfl
 
@@ -75,6 +91,10 @@ theorem fill_limit_refuses (h : Heap) (a : ArrId) (x : F64) (c : CellId)
   have h2 : x.toGoInt.toNat > fillLimit := by omega
   simp [h1, h2]
 
+/-- non-vacuity of `fill_limit_refuses`: index 2000000 into an empty array -/
+example : (F64.ofNat 2000000).toGoInt > (fillLimit : Int) ∧
+    (((Heap.empty).arr 0).size : Int) ≤ (F64.ofNat 2000000).toGoInt := by decide +kernel
+
 theorem fillNulls_size (n : Nat) (h : Heap) (items : Array CellId) :
     (fillNulls n h items).2.size = items.size + n ∧ (fillNulls n h items).1.arrs = h.arrs := by
   induction n generalizing h items with
@@ -87,7 +107,8 @@ theorem fillNulls_size (n : Nat) (h : Heap) (items : Array CellId) :
     rw [this.2]; rfl
 
 /-- … and at or below it the store succeeds and the array then ends exactly at that index
-    (the gap is padded with fresh null cells) -/
+    (only the new SIZE is stated; that the gap holds fresh null cells is `fillNulls` by
+    definition, not part of this statement) -/
 theorem fill_limit_accepts (h : Heap) (a : ArrId) (x : F64) (c : CellId)
     (hlo : 0 ≤ x.toGoInt) (hi : x.toGoInt ≤ (fillLimit : Int))
     (hsz : ((h.arr a).size : Int) ≤ x.toGoInt) (ha : a < h.arrs.size) :
@@ -106,6 +127,11 @@ theorem fill_limit_accepts (h : Heap) (a : ArrId) (x : F64) (c : CellId)
   simp only [Array.getD_eq_getD_getElem?] at hf h1
   have := hf.1
   omega
+
+/-- non-vacuity of `fill_limit_accepts`: index 3 into the allocated empty array 0 -/
+example : 0 ≤ (F64.ofNat 3).toGoInt ∧ (F64.ofNat 3).toGoInt ≤ (fillLimit : Int) ∧
+    ((((⟨#[], #[#[]], #[]⟩ : Heap)).arr 0).size : Int) ≤ (F64.ofNat 3).toGoInt ∧
+    0 < (⟨#[], #[#[]], #[]⟩ : Heap).arrs.size := by decide +kernel
 
 theorem fillLimit_value : fillLimit = 1048576 := rfl
 
